@@ -110,7 +110,7 @@ func runExhaust(ctx context.Context, w *out.W, tier, tmp, outDir, only string) {
 	ms := []Mode{{"mem", true, "none"}, {"mem", true, "file"}, {"mem", false, "file"}}
 	runCases(ctx, w, cases, func(i int) []Mode {
 		if cases[i].ID[0] == 'x' {
-			return append(ms, Mode{"mem", false, "none"}, Mode{"file", true, "file"})
+			return append(ms, Mode{"mem", false, "none"}, Mode{"file", true, "file"}, Mode{"mem", true, "rawtx"})
 		}
 		return ms[i%3 : i%3+1]
 	}, tmp, outDir)
